@@ -35,6 +35,14 @@ CHECKS = {
  "C08": dict(level="fault_enumeration", design_ref="DESIGN.md §4 C08", engine="seq-machine",
    text="Every handler call of the faulty call (learned from a fault-free dry run: each Exit/Enter/self/state-state/AnyEnter/End/State/AnyState call of each binding, including the auto and Exception transitions it triggers) gets each fault kind - panic(string), panic(error), stall beyond HandlerTimeout - singly and paired with a second fault inside the Exception handlers, each followed by a probe call. spec/Faults.tla models recoverToErr / recoverFinalPhase / Event.IsValid step by step; TLC validates every recorded run against it and evaluates parity, negotiation-fault-frozen, exact final rollback, Exception-carries-message, timeout-reported and no-escape/no-hang on what the real machine did; the same formulas are invariants of the bounded FaultMode model.",
    technique="fault enumeration over handler positions on the real machine; TLA+ fault model (TLC bounded model + trace validation)"),
+ "C09": dict(level="model_checking", design_ref="DESIGN.md §4 C09", engine="rpcsync",
+   text="An explicit TLA+ model of the pkg/rpc clock-sync protocol (source tracer, server lastPush / lockExport, push vs reply ordering, FIFO wires, client apply / checksum / Sync, drop / reconnect / hello / handshake), one action per critical section, is model-checked within small bounds over six sync configurations: with every repair flag on, ConvergedAtQuiescence, ResyncAfterDrift, NoForeverBlock and ReadYourWrite are invariants and <>[]Converged holds under fairness; with the flags as the code is, TLC's counterexample histories are forced action by action on a real Server + Client + NetworkMachine over an in-memory link with gate hooks, free-running histories are run per sync mode, and every trace is validated by TLC with the formulas evaluated on the logged clocks.",
+   note="Exhaustive only within the stated constants (2 tracked + 1 skipped state, <= 3-4 source mutations, <= 2-3 pushes, <= 1 drop, <= 2 syncs); index spaces and integer truncation are C10's; WebSocket, mux and payload paths are not modelled; the assignment of a violation to one cause is a heuristic made from the log. Trusted base: TLC, the in-memory link and gate hooks (pkg/rpc verif_sync_on.go).",
+   technique="TLA+/TLC model checking + TLC-generated schedule replay through gate hooks + TLC trace validation"),
+ "C10": dict(level="model_checking", design_ref="DESIGN.md §4 C10", engine="rpcdiff",
+   text="TLC exhaustively checks a TLA+ transcription of the clock-diff encoder and decoder (three index spaces, uint8/16/32 truncation as 4x16-bit limb arithmetic) for RoundTrip, Applied and DriftRejected, on the code as it is over the sound domain and on the repaired design everywhere, and predicts the defect classes. The same formulas are evaluated on the output of the REAL tracer, calcUpdate, clockFromUpdate and clockUpdate code for every tracked subset x mode x per-state delta vector (0..4 for n<=3, 0..3 for n=4 in quick; n<=5 thorough), sampled 2^8/2^16/2^32 boundaries, first-push, grown-schema and per-mutation chains, with 2-7 drifted mirrors per case; every stage is compared with the spec.",
+   note="Exhaustive within those bounds; n=6 and boundary values are sampled. The source clock is a settable am.Api; everything else is unmodified package code without the network (pkg/rpc verif_on.go). Trusted base: TLC, the Go toolchain, the harness.",
+   technique="TLA+/TLC bounded model + function-level conformance (ndjson trace validation with the property formulas on logged values)"),
  "C11": dict(level="model_checking", design_ref="DESIGN.md §4 C11",
    text="The spec models map-order nondeterminism explicitly (auto-candidate order, topology DFS start order) behind flags; with the ordered variants TLC shows one behaviour per history. The binding re-executes every generated case >= 64 times on fresh machines and requires byte-identical recorded behaviour, and validates the reference executions against the ordered spec (auto order and topology are compared strictly).",
    technique="TLA+ spec with explicit map-order nondeterminism + TLC; repeated re-execution of the real code; trace validation"),
@@ -42,6 +50,18 @@ CHECKS = {
    text="spec/Dispose.tla models any number of Dispose/DisposeForce/context attempts racing through the stages of doDispose (SingleWinner, DisposeHandlersOnce, AllWaitersReleased, Completes under fairness). On the real machine disposal is landed on an idle machine, a short and a long running queue, inside a negotiation handler, a final handler, Eval, and from inside a handler, by Dispose, DisposeForce, parent-context cancel, two Disposes and Dispose+DisposeForce, with and without handlers and with one outstanding waiter of every kind; the dd.* stage hooks are validated against the spec and the end state is judged: every waiter released, contexts cancelled, dispose handlers exactly once, handler loop exited, callers neither panicked nor blocked, ~75 later API calls return promptly with a neutral value.",
    note="Landing points are reached by blocking handlers / timing, not by gates inside doDispose; DisposeForce is documented to cause panics in concurrent callers (not counted). Trusted base: TLC, the dd.* and hl.exit hooks.",
    technique="TLA+ spec of the disposal stages + TLC; disposal scenarios on the real code; trace validation of stage hooks and end state"),
+ "C17": dict(level="model_checking", design_ref="DESIGN.md §4 C17", engine="history",
+   text="TLC exhaustively explores spec/MCHistory.tla (every list / TrackRejected / tracked / Max / batch configuration of a 2-state space, every history of <= 4-6 abstract transitions incl. rejected and check ones, Sync, Export/Import, the lagging Saved counter and both GC/write orders) with OneRecordPerMatch, Bounded, KeepsNewest, QueryExact, NewestFirst, ImportRestores as invariants. The same formulas plus BackendsAgree and Durable are evaluated by TLC (spec/TraceHistory.tla) on what real memory / bbolt (thorough: + badger, gorm/sqlite, a crash point after every Sync) memories stored and answered for generated workloads and ~60 generated queries per case (all 16 presence combinations of the four state conditions x time kinds, the *Between helpers).",
+   note="Exhaustive only within the MC constants. Stores are scanned directly after observed write quiescence; human time is expressed as mutation indexes; a crash point is a file copy after Sync's writes completed; where the property admits several readings a violation needs all of them contradicted. frostdb is out of scope. Trusted base: TLC, the Go toolchain, the harness.",
+   technique="TLA+ spec + TLC exhaustive small scope; trace validation of recorded real executions on four backends"),
+ "C18": dict(level="model_checking", design_ref="DESIGN.md §4 C18", engine="pipes",
+   text="spec/Pipes.tla transcribes pipes.go and the target's mutation entry points (queue duplicate detection, Remove shortcut, pop-then-run loop). TLC checks FollowsAtQuiescence, BindAnyMirrors and SourceNeverBlocked over toggle bursts of up to 5-8 source mutations on 1-2 piped states with every delivery order. The spec variant the code refines is selected by trace-validating probe runs (strict variant first), and every complete behaviour TLC enumerates for that variant is forced on the real machines: an am.Api proxy of the target gates each forwarded call, and TLC trace validation evaluates the formulas on the logged source and target sets at every observed joint quiescence. Gated random schedules and free-running bursts cover Bind, BindMany, BindReady, BindStart, BindErr, BindConnected, BindAny and the flat variants.",
+   note="Exhaustive only within the stated bounds. Non-local targets are an IsLocal()=false proxy (no rpc NetworkMachine). The target has no relations or handlers, so it never vetoes (the property's premise). Trusted base: TLC, the proxy/gate harness.",
+   technique="TLA+/TLC model checking, TLC-generated schedule replay through a gated target proxy, ndjson trace validation"),
+ "C20": dict(level="model_checking", design_ref="DESIGN.md §4 C20", engine="api",
+   text="TLC checks on MCApiAlgebra that the Go-source model of every list / Time / queue helper satisfies the set-theoretic meaning of its name for all inputs over 3 known names plus 1 unknown (lists <= 3 with duplicates, 0-2 variadic lists, queues <= 3 with every Position), and checks a lifecycle model for copy semantics and wait/ask outcomes. The Go driver enumerates the same input space on the real functions, mutates every getter's return value and drives every Sync / Cant / Ask helper through accepted, vetoed, queued and disposed outcomes; TLC evaluates the law on every logged result. Every exported function and method (go/parser table plus reflection, so additions are covered) is called in 6 lifecycle phases x 4 argument classes inside journalled worker processes (a fatal stack overflow or deadlock is attributed to the journalled call).",
+   note="Algebra, copy semantics and helpers are exhaustive within the stated bounds; the totality sweep is exploration (one representative value per argument class); documented panics (unknown state names, empty Eval source) are outside the premise and not generated. Trusted base: TLC, reflection / go/parser table generation, the worker-process journal.",
+   technique="TLA+ function-level conformance + trace validation + reflective, crash-isolated totality sweep"),
  "C14": dict(level="model_checking", design_ref="DESIGN.md §4 C14",
    text="Callback order per transition, no interleaving, time chain (before = previous after), after = actual machine time, canceled = no change, last report = final time are formulas over the recording tracer's log; invariants of the bounded model and evaluated on every recorded transition.",
    technique="TLA+ spec + TLC; trace validation of tracer callbacks"),
@@ -78,7 +98,12 @@ def main():
                    source_commits=[l.strip() for l in open(os.path.join(ROOT, "hooks_commits.txt")) if l.strip()]
                    if os.path.exists(os.path.join(ROOT, "hooks_commits.txt")) else [],
                    add_only=True),
-        engines=[dict(name="queue", path="spec/Queue.tla spec/TraceQueue.tla harness/gate harness/queuedrv tools/queuecheck.py", serves_properties=["C04"], kind_free_text="TLA+ spec of the processQueue race; schedules forced on the real machine through verif gate hooks; trace validation"),
+        engines=[dict(name="rpcsync", path="spec/RpcSync*.tla spec/MCRpcSync*.tla spec/TraceRpcSync.tla harness/rpcdrv tools/rpcsynccheck.py", serves_properties=["C09"], kind_free_text="TLA+ protocol model; forced schedules over an in-memory link; trace validation"),
+                 dict(name="rpcdiff", path="spec/RpcDiff.tla spec/MCRpcDiff.tla spec/TraceRpcDiff.tla harness/rpcdiff tools/rpcdiffcheck.py", serves_properties=["C10"], kind_free_text="TLA+ transcription of the clock-diff codec; function-level conformance"),
+                 dict(name="history", path="spec/History.tla spec/MCHistory.tla spec/TraceHistory.tla harness/histdrv tools/historycheck.py", serves_properties=["C17"], kind_free_text="TLA+ model of the history log and queries; four real backends validated against it"),
+                 dict(name="pipes", path="spec/Pipes.tla spec/MCPipes.tla spec/TracePipes.tla harness/pipesdrv tools/pipescheck.py", serves_properties=["C18"], kind_free_text="TLA+ model of pipe forwarding; delivery orders forced through a gated target proxy"),
+                 dict(name="api", path="spec/ApiAlgebra.tla spec/MCApiAlgebra.tla spec/TraceApiAlgebra.tla harness/apidrv tools/apicheck.py", serves_properties=["C20"], kind_free_text="TLA+ laws vs code models of the helpers; lifecycle model; reflective totality sweep"),
+                 dict(name="queue", path="spec/Queue.tla spec/TraceQueue.tla harness/gate harness/queuedrv tools/queuecheck.py", serves_properties=["C04"], kind_free_text="TLA+ spec of the processQueue race; schedules forced on the real machine through verif gate hooks; trace validation"),
                  dict(name="subs", path="spec/Subs.tla spec/MCSubs.tla spec/TraceSubs.tla harness/subsdrv tools/subscheck.py", serves_properties=["C06"], kind_free_text="TLA+ spec of the subscription manager; window-placed scenarios; trace validation with probes"),
                  dict(name="dispose", path="spec/Dispose.tla spec/TraceDispose.tla harness/dispdrv tools/disposecheck.py", serves_properties=["C13"], kind_free_text="TLA+ spec of doDispose stages; disposal scenarios; trace validation"),
                  dict(name="seq-machine", path="spec/Machine.tla spec/Faults.tla spec/Transition.tla spec/Resolver.tla spec/Props.tla spec/MCMachine.tla spec/TraceMachine.tla harness/seqdrv tools/seqcheck.py",
